@@ -361,6 +361,26 @@ func (p *Prog) checkShouldTotalSource(r *Report, rule, name string, run *ssa.Fun
 							if len(f.Params) == 1 && strip(st.Val) == ssa.Value(f.Params[0]) {
 								fromConfig = true
 							}
+							// when the default is conditional, the condition is "the data has no
+							// should-total yet" — the very field, or the value it was built with
+							for _, g := range guardsOf(call.Block()) {
+								x, isNil, isN := nilFact(g)
+								if !isN || typeNameOf(x.Type()) != "ShouldTotal" {
+									continue
+								}
+								same := false
+								if fa2, isFA := fieldAddrOfLoad(x); isFA && fieldName(fa2) == "ShouldTotal" && cellOf(fa2.X) == cell {
+									same = true
+								}
+								eachInstr(run, func(in2 ssa.Instruction) {
+									if st2, isS := in2.(*ssa.Store); isS {
+										if fa3, isF := st2.Addr.(*ssa.FieldAddr); isF && fieldName(fa3) == "ShouldTotal" && cellOf(fa3.X) == cell && sameValue(st2.Val, x) {
+											same = true
+										}
+									}
+								})
+								r.check(same && isNil, rule, key+":default-guard", p.instrPos(call), "the default applies exactly when the data carries no should-total", name+" decides about the configured default should-total by testing something other than the should-total the new record is given (an alias flag would be overridden by the default)")
+							}
 						}
 					}
 				}
@@ -1028,4 +1048,18 @@ func (p *Prog) mutatesLines(in ssa.Instruction, mutators map[*ssa.Function]bool)
 		}
 	}
 	return false
+}
+
+// fieldAddrOfLoad: v is a load *(&x.f); returns the FieldAddr.
+func fieldAddrOfLoad(v ssa.Value) (*ssa.FieldAddr, bool) {
+	u, ok := plainDeref(v).(*ssa.UnOp)
+	if !ok || u.Op != token.MUL {
+		if u2, ok2 := v.(*ssa.UnOp); ok2 && u2.Op == token.MUL {
+			u, ok = u2, true
+		} else {
+			return nil, false
+		}
+	}
+	fa, ok := u.X.(*ssa.FieldAddr)
+	return fa, ok
 }
